@@ -27,6 +27,23 @@ OPS = [
 ]
 OPS = [o for o in OPS if "None.or" not in o[1]]
 
+# a second operator set (tools/mutate.py gen <dir> --set B)
+OPS_B = [
+    (r" < ", " > "), (r" > ", " < "), (r" <= ", " >= "), (r" >= ", " <= "),
+    (r" \+= ", " -= "), (r" -= ", " += "),
+    (r"\.min\(", ".max("), (r"\.max\(", ".min("), (r"\.first\(\)", ".last()"), (r"\.last\(\)", ".first()"),
+    (r"\.is_some\(\)", ".is_none()"), (r"\.is_none\(\)", ".is_some()"), (r"\.is_ok\(\)", ".is_err()"), (r"\.is_err\(\)", ".is_ok()"),
+    (r"\bbreak;", "continue;"), (r"\bcontinue;", "break;"),
+    (r" as isize", " as i32 as isize"), (r" as u32", " as u16 as u32"), (r" as i64", " as i32 as i64"), (r" as u16", " as u16 as u8 as u16"),
+    (r"\.\.=", ".."), (r"\b0\.\.", "1.."),
+    (r" / ", " * "), (r" % ", " / "), (r" & ", " | "), (r" \| ", " & "), (r" << ", " >> "), (r" >> ", " << "),
+    (r"\b([1-9][0-9]*)\b(?!\.)", "INCR"), (r"\b0\b(?![.x])", "1"),
+    (r"\.saturating_sub\(", ".saturating_add("), (r"\.wrapping_sub\(", ".wrapping_add("), (r"\.wrapping_add\(", ".wrapping_sub("),
+    (r"\.chars\(\)", ".chars().rev()"), (r"\.iter\(\)\.rev\(\)", ".iter()"),
+    (r"\.pop\(\)", ".last().cloned()"),
+    (r"\} else if ", "} else if !"),
+]
+
 
 def candidate_lines(path):
     """(line number, text) of ordinary code lines: outside #[cfg(test)] modules and verif-guarded items."""
@@ -68,6 +85,9 @@ def candidate_lines(path):
     return lines, out
 
 
+ACTIVE_OPS = OPS
+
+
 def all_mutants():
     ms = []
     for f in FILES:
@@ -75,17 +95,20 @@ def all_mutants():
         lines, cands = candidate_lines(path)
         for (i, l) in cands:
             code = l.split("//")[0]
-            for (pat, rep) in OPS:
+            for (pat, rep) in ACTIVE_OPS:
                 for m in re.finditer(pat, code):
                     # not inside a string literal (rough: even number of quotes before the match)
                     if code[: m.start()].count('"') % 2 == 1:
                         continue
-                    new = code[: m.start()] + re.sub(pat, rep, code[m.start(): m.end()], count=1) + code[m.end():] + l[len(code):]
+                    if rep == "INCR":
+                        new = code[: m.start()] + str(int(m.group(1)) + 1) + code[m.end():] + l[len(code):]
+                    else:
+                        new = code[: m.start()] + re.sub(pat, rep, code[m.start(): m.end()], count=1) + code[m.end():] + l[len(code):]
                     if new != l:
                         ms.append({"file": f, "line": i + 1, "old": l, "new": new, "op": f"{pat} -> {rep}"})
             # statement deletion: a call statement on its own line
             s = l.strip()
-            if re.match(r"^(self\.[a-z_\.]+\(.*\);|[a-z_]+\.(push|pop|truncate|clear|insert|remove)\(.*\);)$", s):
+            if ACTIVE_OPS is OPS and re.match(r"^(self\.[a-z_\.]+\(.*\);|[a-z_]+\.(push|pop|truncate|clear|insert|remove)\(.*\);)$", s):
                 ms.append({"file": f, "line": i + 1, "old": l, "new": l.replace(s, "/* deleted */"), "op": "delete statement"})
     return ms
 
@@ -157,6 +180,9 @@ def main():
     def opt(name, default):
         return int(args[args.index(name) + 1]) if name in args else default
     stride, offset, jobs = opt("--stride", 1), opt("--offset", 0), opt("--jobs", 4)
+    global ACTIVE_OPS
+    if "--set" in args and args[args.index("--set") + 1] == "B":
+        ACTIVE_OPS = OPS_B
     ms = all_mutants()
     for k, m in enumerate(ms):
         m["id"] = k
